@@ -243,17 +243,15 @@ Section Reader.
     bind (np_index1 gain s') (fun '(_, gs) =>
     Ok (rd, cd, zlen cps, map (fun row => zip_cal row gs) cells))))))).
 
-  (* Reader.__getitem__:
-       if isinstance(item, int) or isinstance(item, slice): read(nsel=item)
-       elif len(item) == 2: read(nsel=item[0], csel=item[1])
-       (otherwise falls off the end: returns None)                           *)
+  (* Reader.__getitem__ (after fix 76db94c):
+       if not isinstance(item, tuple): return self.read(nsel=item, sync=False)
+       elif len(item) == 2: return self.read(nsel=item[0], csel=item[1], sync=False)
+       (tuples of another length fall off the end: returns None)               *)
   Inductive item := ISel (s : sel) | ITuple (l : list sel).
 
   Definition getitem cbin raw nc order gain (it : item) : res (option (result V)) :=
     let rd n c := bind (read cbin raw nc order gain n c) (fun r => Ok (Some r)) in
     match it with
-    | ISel (SList [a; b]) => rd (SInt a) (SInt b)
-    | ISel (SList _) => Ok None
     | ISel s => rd s (SSlice None None None)
     | ITuple [a; b] => rd a b
     | ITuple _ => Ok None
